@@ -10,7 +10,11 @@ S  spans.  The C19 corpus (mc/ref/c19_gen.py) re-printed in four layouts -- ``pl
    checked: the named template's source (looked up by the harness: "main" or a partial)
    satisfies ``source[index:].startswith(name)``; for a variable the name is its root
    segment, where a quoted root may appear as ``['name'`` / ``["name"`` and a root that is
-   itself a path (``[x]``) as ``[``.
+   itself a path (``[x]``) as ``[``.  For every span ``Span.line_col(source)`` ("(line number,
+   column number) for this span in source") must equal the line and column the harness
+   computes from the raw index (bases calibrated on a mid-line canary); the ml / crlf /
+   liquid layouts put tag names, variable roots, assigned names, filter names and arguments
+   first on their line (column 0).
 
 E  errors.  Every malformed source M(k), every single-deviation token mutant of the corpus
    programs (n <= 2) in all four layouts (token mutants also with a lone \\r as line ending),
@@ -26,6 +30,7 @@ E  errors.  Every malformed source M(k), every single-deviation token mutant of 
 
 from __future__ import annotations
 
+import bisect
 import itertools
 import json
 import re
@@ -70,7 +75,7 @@ def root_matches(source: str, index: int, root: Any) -> bool:
     return re.match(r"\[\s*(?:'" + re.escape(name) + r"'|\"" + re.escape(name) + r"\")", rest) is not None
 
 
-def span_problems(sources: dict[str, str], kind: str, name: Any, span: Any) -> Optional[str]:
+def span_problems(sources: dict[str, str], kind: str, name: Any, span: Any, layout: str = "plain") -> Optional[str]:
     src = sources.get(span.template_name)
     if src is None:
         return f"template {span.template_name!r} is not one of {sorted(sources)}"
@@ -80,6 +85,62 @@ def span_problems(sources: dict[str, str], kind: str, name: Any, span: Any) -> O
     ok = root_matches(src, idx, name) if kind in ("variables", "globals", "locals") else src[idx:].startswith(str(name))
     if not ok:
         return f"source[{idx}:] of {span.template_name!r} starts with {src[idx:idx + 16]!r}, not with {name!r}"
+    tname = str(span.template_name)
+    key = (layout, tname, idx)
+    if tname != "main":
+        if key in _LINECOL_DONE:
+            return None
+        _LINECOL_DONE.add(key)
+    why = linecol_problem(src, span)
+    if why:
+        return "LINECOL " + why
+    return None
+
+
+_BREAK = re.compile(r"\r\n|\r|\n")
+_STARTS: dict[int, tuple[str, list[int]]] = {}
+_SPAN_BASE: Optional[tuple[int, int]] = None
+_LINECOL_DONE: set[tuple[str, str, int]] = set()   # (layout, partial name, index) already compared (partials are fixed)
+
+
+def line_starts(src: str) -> list[int]:
+    got = _STARTS.get(id(src))
+    if got is None or got[0] is not src:
+        if len(_STARTS) > 64:
+            _STARTS.clear()
+        got = (src, [0] + [m.end() for m in _BREAK.finditer(src)])
+        _STARTS[id(src)] = got
+    return got[1]
+
+
+def span_base(span: Any) -> tuple[int, int]:
+    """How ``Span.line_col`` counts lines and columns (its docstring does not say from which number):
+    calibrated once per process on a position in the middle of a line, then required everywhere."""
+    global _SPAN_BASE
+    if _SPAN_BASE is None:
+        line, col = type(span)("canary", 4).line_col("ab\ncd\nef")  # the 'd': second line, one character in
+        _SPAN_BASE = (line - 1, col - 1)
+        if _SPAN_BASE not in ((0, 0), (0, 1), (1, 0), (1, 1)):
+            raise RuntimeError(f"harness binding lost: Span.line_col() gives {(line, col)} for the canary")
+    return _SPAN_BASE
+
+
+def linecol_problem(src: str, span: Any) -> Optional[str]:
+    """``Span.line_col(source)`` -- "(line number, column number) for this span in source" -- against the
+    line and column the harness computes from the raw index (a line ends with \\r\\n, \\r or \\n)."""
+    fn = getattr(span, "line_col", None)
+    if fn is None:
+        return None
+    starts = line_starts(src)
+    i = bisect.bisect_right(starts, span.index) - 1
+    lb, cb = span_base(span)
+    want = (i + lb, span.index - starts[i] + cb)
+    try:
+        got = tuple(fn(src))
+    except Exception as e:  # noqa: BLE001
+        return f"line_col() raised {type(e).__name__}: {e} for index {span.index} (expected {want})"
+    if got != want:
+        return f"line_col() says {got}, index {span.index} is line/column {want} ({src[starts[i]:starts[i] + 20]!r})"
     return None
 
 
@@ -115,18 +176,20 @@ def check_spans(res: Result, shape: list[Any], layout: str) -> None:
             for _key, vs in getattr(a, kind).items():
                 for v in vs:
                     nspans += 1
-                    why = span_problems(sources, kind, v.segments[0], v.span)
+                    why = span_problems(sources, kind, v.segments[0], v.span, layout)
                     if why:
-                        res.violation({"clause": "span", "api": "analyze", "kind": kind, "layout": layout,
+                        res.violation({"clause": "span-linecol" if why.startswith("LINECOL") else "span", "api": "analyze",
+                                       "kind": kind, "layout": layout,
                                        "template": str(v.span.template_name), "where": line_kind(src, v.span.index)},
                                       f"{kind} {str(v)!r}: {why}; main = {src!r}", case)
         for kind in ("filters", "tags"):
             for name, spans in getattr(a, kind).items():
                 for sp in spans:
                     nspans += 1
-                    why = span_problems(sources, kind, name, sp)
+                    why = span_problems(sources, kind, name, sp, layout)
                     if why:
-                        res.violation({"clause": "span", "api": "analyze", "kind": kind, "name": name, "layout": layout,
+                        res.violation({"clause": "span-linecol" if why.startswith("LINECOL") else "span", "api": "analyze",
+                                       "kind": kind, "name": name, "layout": layout,
                                        "template": str(sp.template_name)},
                                       f"{kind} {name!r}: {why}; main = {src!r}", case)
     else:
@@ -151,9 +214,10 @@ def check_tag_analysis(res: Result, ta: Any, sources: dict[str, str], layout: st
         for name, spans in m.items():
             for sp in spans:
                 n += 1
-                why = span_problems(sources, "tags", name, sp)
+                why = span_problems(sources, "tags", name, sp, layout)
                 if why:
-                    res.violation({"clause": "span", "api": "analyze_tags", "kind": attr, "name": name, "layout": layout},
+                    res.violation({"clause": "span-linecol" if why.startswith("LINECOL") else "span", "api": "analyze_tags",
+                                   "kind": attr, "name": name, "layout": layout},
                                   f"{attr} {name!r}: {why}", case)
     return n
 
@@ -174,9 +238,6 @@ def check_partial_tags(res: Result, layout: str) -> None:
 # E: errors raised while parsing
 # ---------------------------------------------------------------------------------------
 _COL_BASE: Optional[int] = None
-
-
-_BREAK = re.compile(r"\r\n|\r|\n")
 
 
 def harness_line_col(src: str, idx: int) -> tuple[int, int, str]:
